@@ -57,6 +57,22 @@ theorem failed_handshake_leaves_none (cfg : Cfg) (w : World) (h : w.conn = none)
   · exact h1
   · rw [h1]; exact h
 
+/-- **An abandoned connection is never picked up again — over a whole exchange with all its retries.** Whatever
+the terminal does (any script, any faults, any number of failed attempts and reconnects): when the exchange
+returns, no connection slot has disappeared, and the live connection — if there is one — is either the very
+connection that was live when the exchange started, or one opened during it (its identity is not among the
+connections that existed before, so it is none of the abandoned ones). -/
+theorem exchange_never_resurrects {σ ρ : Type} (cfg : Cfg) (seqName : String) (cmd : Bytes) (timeout : Nat)
+    (step : σ → Item → Step σ ρ) (w : World) (s : σ) :
+    w.logs.length ≤ (runOp cfg seqName cmd timeout step w s).2.logs.length ∧
+    ∀ c', (runOp cfg seqName cmd timeout step w s).2.conn = some c' →
+      (∃ c, w.conn = some c ∧ c'.id = c.id) ∨ w.logs.length ≤ c'.id :=
+  runOp_fresh cfg seqName cmd timeout step w s
+
+/-- every handshake — successful or not — uses up one connection slot, so identities are never recycled. -/
+theorem handshake_uses_new_slot (cfg : Cfg) (w : World) : (connect cfg w).1.logs.length = w.logs.length + 1 :=
+  connect_nlogs cfg w
+
 /-- inside an exchange the client never switches connections. -/
 theorem same_connection_within_exchange (d : SeqDesc) (w : World) (c : ConnSt) (st : SeqSt) :
     (seqNext d w c st).2.2.1.id = c.id := (seqNext_conn d w c st).2
